@@ -1,6 +1,8 @@
 #!/usr/bin/env python3
 """C01 sparse stream — compressed_vector / compressed_matrix storage operations, the sparse assignment kernels of
-kernels/default/{vector,matrix}_assign.hpp and the operator forms on sparse operands.
+kernels/default/{vector,matrix}_assign.hpp, the operator forms on sparse operands, sparse expressions as right-hand
+sides (cpu/iterator.hpp), prod(compressed matrix, vector) (documented value only) and the dense blocked kernels for
+operands of opposite orientation (DKA / DKF).
 
 Every generated command sequence is executed by the freshly compiled harness/c01_sparse.cpp and by the extracted Coq
 model (C01SparseExec.run_cmd); the outputs (values, capacities, STORED index sequences) are compared exactly.
@@ -154,6 +156,15 @@ def monitor(case, out):
         elif h == "SCAL":
             t = V[int(a[2])]; c = int(a[3])
             exp = [OPS[a[1]](x, c) if (t.kind == "d" or i in t.stored) else 0 for i, x in enumerate(t.vals)]
+        elif h == "SPMV":
+            t, A, x = V[int(a[3])], M[int(a[4])], V[int(a[5])]; tr = a[6] != "0"
+            pv = [sum((A.vals[j][i] if tr else A.vals[i][j]) * x.vals[j] for j in range(x.n)) for i in range(t.n)]
+            exp = [OPS[a[2]](p, q) for p, q in zip(t.vals, pv)]
+            key = "sparse-prod:gemv:%s:%s:%s%s" % (a[1], a[2], A.orient, "T" if tr else "")
+            if st.vals != exp:
+                return ["%s %sprod(sparse matrix, vector): observed %s, expected %s" % (key, tag, st.vals, exp)]
+            V[int(a[3])] = st
+            continue
         elif h == "XV":
             t = V[int(a[3])]; shape = int(a[4]); k = int(a[8])
             ops = [V.get(int(a[5])), V.get(int(a[6])), V.get(int(a[7]))]
@@ -328,9 +339,17 @@ def gen_matrix_case(rng):
             L.append("MPUT %d %d %d %d" % (i, a, b, val()))
             if k[0] == "s" and rng.random() < 0.08: L.append("MMRES %d %d %d %d" % (i, rng.randrange(major), rng.randint(0, 9), rng.randint(0, 1)))
     sparse = [i for i, k in enumerate(kinds) if k[0] == "s"]
+    # dense vectors for prod(A, x): v0 of size c, v1 of size r
+    L.append("NDV 0 %d" % c); L.append("NDV 1 %d" % r)
+    for j in range(c): L.append("PUT 0 %d %d" % (j, val()))
+    for j in range(r): L.append("PUT 1 %d %d" % (j, val()))
     for _ in range(rng.randint(3, 8)):
         u = rng.random()
         t = rng.randrange(nslots); s = rng.choice(sparse)
+        if rng.random() < 0.15:
+            tr = rng.randint(0, 1)
+            L.append("SPMV %s %s %d %d %d %d" % (rng.choice(["plain", "noalias"]), rng.choice(["=", "+=", "-="]), 0 if tr else 1, s, 1 if tr else 0, tr))
+            continue
         if u < 0.32:
             if t == s: continue
             f = rng.choice(["add", "sub", "mul", "mad", "sqp1", "rsub"])
@@ -462,6 +481,11 @@ def valid(case):
                 if M[s0][0] != "s" or M[t][2:] != M[s0][2:]: return False
                 if t == s0 and not (h == "MOP" and a[1] == "plain"): return False
                 if h == "MOP" and a[1] == "plain" and a[2] == "=" and M[t][0] == "s" and M[t][1] != M[s0][1]: return False
+            elif h == "SPMV":
+                t, A, x = V[int(a[3])], M[int(a[4])], V[int(a[5])]
+                if t[0] != "d" or x[0] != "d" or A[0] != "s" or int(a[3]) == int(a[5]) or a[2] == "*=": return False
+                rr, cc = (A[3], A[2]) if a[6] != "0" else (A[2], A[3])
+                if t[1] != rr or x[1] != cc: return False
             elif h == "MFILL":
                 if M[int(a[1])][0] != "d": return False
             elif h in ("DKA", "DKF"):
@@ -557,8 +581,8 @@ def stream(ck, rng, ncases):
     nfixed = len(cases)
     for k in range(ncases):
         cases.append(gen_vector_case(rng) if k % 2 == 0 else gen_matrix_case(rng))
-    for k in range(8 if ncases <= 400 else 30):
-        cases.append(gen_block_case(rng, big=(ncases > 400 and k % 3 == 0)))
+    for k in range(8 if ncases <= 1000 else 30):
+        cases.append(gen_block_case(rng, big=(ncases > 1000 and k % 3 == 0)))
     bad = [c for c in cases if not valid(c)]
     if bad: raise RuntimeError("generator produced an ill-formed sparse case: %r" % bad[0])
     tmpd = os.path.join(BUILD, "tmp", "C01", "sparse")
